@@ -15,8 +15,9 @@ The search loop is proved correct for **all texts** under two decidable conditio
 (`Complete`: every factor of the pattern, read backwards, is accepted; `Monotone`: every transition goes to a
 higher state, at most `m`, and a transition `q → q+1` is labelled with the `q`-th symbol of the reversed pattern).
 That the *construction* establishes them for every pattern is the factor-oracle theorem of Allauzen, Crochemore and
-Raffinot; it is **not** proved here — the driver evaluates both conditions on the model's table for every pattern of
-the correspondence run instead (so for each tested pattern the search is proved correct on all texts).
+Raffinot; it is proved in `RbV/Lemmas/BomOracle.lean` (`build_complete`, `build_monotone`, and the unconditional
+`findAll_eq_occurrences`). The driver still evaluates both conditions on the model's table for every pattern of the
+correspondence run, as a cross-check of model and proof.
 -/
 namespace RbV.Bom
 
@@ -54,6 +55,37 @@ def addLetter (st : Table × List (Option Nat)) (a : Nat) : Table × List (Optio
 
 def build (p : List Nat) : Table := (p.reverse.foldl addLetter ([], [none])).1
 
+/-! The same construction with the panics of the Rust code made explicit (`none` = the real code would panic:
+`table[k_]` out of bounds, `suff[..]` read at an index that was never written, `.unwrap()` of an absent
+transition — or the model's fuel ran out).  `buildS p = some (build p)` for every pattern
+(`RbV/Lemmas/BomOracle.lean`), so `build` never relies on the totalised `getD`/`[_]?` defaults. -/
+
+def climbS (suff : List (Option Nat)) (a i : Nat) : Nat → Table → Option Nat → Option (Table × Option Nat)
+  | 0, T, none => some (T, none)
+  | 0, _, some _ => none
+  | _ + 1, T, none => some (T, none)
+  | fuel + 1, T, some k_ =>
+    match T[k_]?, suff[k_]? with
+    | some l, some k' =>
+      if (lookup l a).isSome then some (T, some k_) else climbS suff a i fuel (tinsert T k_ a i) k'
+    | _, _ => none
+
+def addLetterS (st : Table × List (Option Nat)) (a : Nat) : Option (Table × List (Option Nat)) :=
+  let i := st.1.length + 1
+  match st.2[i - 1]? with
+  | none => none
+  | some k0 =>
+    match climbS st.2 a i (i + 1) st.1 k0 with
+    | none => none
+    | some (T', none) => some (T' ++ [[(a, i)]], st.2 ++ [some 0])
+    | some (T', some k_) =>
+      match delta T' k_ a with                       -- `*table[k].get(a).unwrap()`
+      | none => none
+      | some s => some (T' ++ [[(a, i)]], st.2 ++ [some s])
+
+def buildS (p : List Nat) : Option Table :=
+  (p.reverse.foldl (fun st a => st.bind (addLetterS · a)) (some ([], [none]))).map (·.1)
+
 /-- reading a word from state `q` -/
 def runT (T : Table) : Nat → List Nat → Option Nat
   | q, [] => some q
@@ -79,6 +111,40 @@ def search (T : Table) (m : Nat) (t : List Nat) : Nat → Nat → List Nat
     else []
 
 def findAll (p t : List Nat) : List Nat := search (build p) p.length t (t.length + 1) p.length
+
+/-! The search with the text indexed exactly as in the Rust code (`text[window - j]`, `window - m`, `m + 2 - j` in
+`usize`); `none` = the real code would panic (subtraction underflow, index out of bounds) or the model's fuel ran
+out.  `findAllS p t = some (findAll p t)` for every non-empty pattern (`RbV/Lemmas/BomOracle.lean`). -/
+
+/-- `while j <= m { match q { Some(q_) => { q = delta(q_, text[window - j]); j += 1 } None => break } }` -/
+def scanS (T : Table) (t : List Nat) (window m : Nat) : Nat → Nat → Option Nat → Option (Option Nat × Nat)
+  | 0, j, q => if j ≤ m ∧ q.isSome then none else some (q, j)
+  | fuel + 1, j, q =>
+    if j ≤ m then
+      match q with
+      | some q_ =>
+        if window < j then none else
+        match t[window - j]? with
+        | none => none
+        | some c => scanS T t window m fuel (j + 1) (delta T q_ c)
+      | none => some (none, j)
+    else some (q, j)
+
+def searchS (T : Table) (m : Nat) (t : List Nat) : Nat → Nat → Option (List Nat)
+  | 0, window => if window ≤ t.length then none else some []
+  | fuel + 1, window =>
+    if window ≤ t.length then
+      match scanS T t window m (m + 1) 1 (some 0) with
+      | none => none
+      | some (q, j) =>
+        if window < m ∨ m + 2 < j then none else
+        match searchS T m t fuel (window + (m + 2 - j)) with
+        | none => none
+        | some rest => some (if q.isSome then (window - m) :: rest else rest)
+    else some []
+
+def findAllS (p t : List Nat) : Option (List Nat) :=
+  (buildS p).bind fun T => searchS T p.length t (t.length + 1) p.length
 
 /-! ### decidable conditions on the table -/
 
@@ -335,7 +401,7 @@ theorem search_spec (p t : List Nat) (T : Table) (hp : 0 < p.length) (hC : Compl
       rintro s ⟨h1, h2, _⟩; omega
 
 /-- **BOM search is exact on every text** for every table that is `Complete` and `Monotone` for the pattern
-(both decidable; the driver checks them on the table built by the model for each tested pattern). -/
+(both decidable; both hold for the table of every pattern, see `RbV/Lemmas/BomOracle.lean`). -/
 theorem findAll_eq_occurrences_of_table (p t : List Nat) (hp : 0 < p.length)
     (hC : completeB (build p) p = true) (hM : monotoneB (build p) p.reverse = true) :
     findAll p t = occurrences p t := by
